@@ -960,7 +960,8 @@ class Server:
             asyncio.create_task(self.parse_command(stream)),
         }
         self.connections[key] = connection
-        login_task = None
+        login_task = login_waiting = None
+        handlers = set()
         try:
             while True:
                 done, pending = await asyncio.wait(
@@ -968,6 +969,7 @@ class Server:
                     return_when=asyncio.FIRST_COMPLETED,
                 )
                 connection.extra_workers -= done
+                handlers -= done
                 for task in done:
                     if task is login_task:
                         login_task = None
@@ -1006,20 +1008,21 @@ class Server:
                         cmd, rest = result
                         f = self.commands_mapping.get(cmd)
                         if f is not None and cmd in ("user", "pass"):
-                            # user manager calls may suspend: nothing sent
-                            # after a login command is looked at before the
-                            # login state is settled
-                            login_task = asyncio.create_task(f(connection, rest))
-                            pending.add(login_task)
+                            # handlers run concurrently and user manager or
+                            # path io calls may suspend: a login command is
+                            # a barrier - it starts when the commands before
+                            # it are through, and nothing sent after it is
+                            # looked at before the login state is settled
+                            login_waiting = f, rest
                             connection.restart_offset = 0
                             continue
                         pending.add(
                             asyncio.create_task(self.parse_command(stream)),
                         )
                         if f is not None:
-                            pending.add(
-                                asyncio.create_task(f(connection, rest)),
-                            )
+                            handler = asyncio.create_task(f(connection, rest))
+                            handlers.add(handler)
+                            pending.add(handler)
                             # restart offset applies to the immediately following
                             # command only, and only if that is a transfer
                             if cmd in ("retr", "stor", "appe"):
@@ -1028,6 +1031,11 @@ class Server:
                         else:
                             message = f"{cmd!r} not implemented"
                             connection.response("502", message)
+                if login_waiting is not None and not handlers:
+                    f, rest = login_waiting
+                    login_waiting = None
+                    login_task = asyncio.create_task(f(connection, rest))
+                    pending.add(login_task)
         except asyncio.CancelledError:
             raise
         except Exception:
